@@ -1112,3 +1112,8 @@ def _related(interp, args, kwargs, node):
     r = interp.call(nb, [x], {}, node)
     c = interp.contains(r, y)
     return c if isinstance(c, VBool) else VBool(c)
+
+
+@spec("is_int")
+def _is_int(interp, args, kwargs, node):
+    return VBool(isinstance(args[0], VInt))
